@@ -24,6 +24,13 @@ def dur_units():
             us.append(Unit(f"C12_dur_f{row}_{row}_r{rs}", "harness/C12_dur.cpp",
                            defs=[f"-DC12_FROM_LO={row}", f"-DC12_FROM_HI={row}", f"-DC12_REPSET={rs}"],
                            flavours={"quick": quick if row in qrows else [], "thorough": thorough}, shards={"quick": 2, "thorough": 8}))
+    # second period family {4, 6, 9, 10, 15, 1/6, 1/10, 6/5, 4/7, 10/21}: numerators / denominators share factors pairwise without dividing
+    # each other, so common_type's period needs a real gcd / lcm (all 100 pairs; i64/i64 in both tiers, i32/i32 and unsigned in thorough)
+    for rs in (0, 1, 4):
+        for lo, hi in ((0, 4), (5, 9)):
+            us.append(Unit(f"C12_dur_f{lo}_{hi}_r{rs}_p1", "harness/C12_dur.cpp",
+                           defs=[f"-DC12_FROM_LO={lo}", f"-DC12_FROM_HI={hi}", f"-DC12_REPSET={rs}", "-DC12_PERSET=1"],
+                           flavours={"quick": quick if rs == 0 else [], "thorough": thorough}, shards={"quick": 2, "thorough": 8}))
     # duration (op) scalar with scalar types different from the representation (member *= /= %= convert to rep first; free operators if declared)
     us.append(Unit("C12_scalar", "harness/C12_scalar.cpp", flavours={"quick": quick, "thorough": ["asanO0-cc", "asan-cc", "plain-cc"]},
                    shards={"quick": 4, "thorough": 8}))
@@ -47,6 +54,7 @@ P = dict(
     registered=True,
     level="exploration",
     level_text=("Differential runtime monitoring of etl::chrono::duration / time_point. All 100 ordered pairs of the periods {nano, micro, milli, 1, 60, 3600, 86400, 1/3, 5/7, 1001/30000} "
+                "(and all 100 ordered pairs of a second family {4, 6, 9, 10, 15, 1/6, 1/10, 6/5, 4/7, 10/21} whose numerators / denominators share factors without dividing each other) "
                 "x representation combinations {i64/i64, i32/i32, i32->i64, i64->i32, f64/f64, i64->f64, f64->i64} (and, for the From rows milli, 1, 60, 1/3, 5/7, the unsigned / mixed-sign "
                 "combinations {u32/u32, u64->i64, u16/u16, i64->u64, i32->u32, u32->i64, u16->i32}; u64 exercised on [0, 2^63-1]) x counts [-200,200]+strided (quick) / [-2000,2000] (thorough) "
                 "plus exact multiples, exact ties and their neighbours, values around +-2^15, +-2^31, +-2^53, +-2^62 and the limits of the representation, plus seeded random counts of every magnitude: "
